@@ -3,7 +3,7 @@ LEAN_MODULES = ["Sif.Props.C07"]
 EXTRACT = [{"group": "bridge", "passes": ["bridgefacts"]}]
 FAMILIES = [
     {"name": "bridge_peg", "family": "bridge_peg", "group": "bridge", "driver": "drv_bridge",
-     "n_quick": 300, "n_thorough": 2000, "seeds_thorough": 3},
+     "n_quick": 300, "n_thorough": 1500, "seeds_thorough": 3},
 ]
 RULE = ("bridge_peg: L1 histories of lock / burn / claim / pause / blacklist / fee-receiver / rescue / whitelist messages on the real keepers: "
         "fee receiver unset and set (also set to the sender, to module accounts), ceth burned with the receiver unset, ceth locked with the receiver "
